@@ -56,7 +56,7 @@ func New(a *effects.Analysis) *Engine {
 	}
 	e.CT = a.P.Reachable(ctRoots)
 	for _, f := range a.P.Funcs {
-		if !e.CT[f] && !(f.Name() == "init" && f.Synthetic != "") {
+		if !e.CT[f] && !load.IsInitFunc(f) {
 			e.VarTimeOnly = append(e.VarTimeOnly, f)
 		}
 	}
